@@ -1,60 +1,752 @@
+// Command rescale replays behaviours of spec/Rescale.tla (property C06) on real operators.
+//
+// Every generation of a behaviour is a set of real workers/operator.Operator instances (own dkv.DB on a
+// shared tmpfs directory, reference handler, recording job) deployed by the REAL jobs.Assembly.Deploy
+// through proto.Operator adapters: the harness only hands it the JobCheckpoint whose operator
+// checkpoints are the real OperatorCheckpointComplete acknowledgements in the order in which they
+// really arrived (the harness sends the barrier to the operators in the order the model chose).
+//
+//	Init    count, grp (key group of every subject key), n operators, compaction regime
+//	W       one keyed event for subject key k to its operator: the handler puts / deletes the state
+//	        entry or registers timer t. When the model's next step is Flush(o) the value is padded
+//	        to the memtable size (verif tunable dkv.memTableSize) so that this write fills the memtable
+//	Flush   wait for the flush and compaction tasks that write started (hooks dkv.flush.start /
+//	        dkv.compact.done); compaction regime through the tunable dkv.maxSizeAmpPct
+//	Wm      watermark t to operator o: the timers handed to the handler are compared
+//	Ckpt    barrier to the operators in ack order perm: real OperatorCheckpoints
+//	Deploy  n new operators (new ids, hence new DKV directories) through jobs.Assembly.Deploy
+//	Finish  every remaining timer is fired, the operators checkpoint once more and that checkpoint is
+//	        restored once more (same operator count) and read back
+//
+// After every step every subject key is read back through the handler of the operator the real
+// KeySpace routes it to (a read event: the handler is given the key's state and changes nothing).
+// Verdicts: the state a handler is given / the timers that fire differ from the model's abstract
+// oracle (exp), an assignment outside must/may, or the code under test crashes the process.
 package main
 
 import (
+	"context"
+	"encoding/json"
 	"fmt"
+	"io"
+	"log/slog"
+	"math"
 	"os"
-	"path/filepath"
+	"regexp"
+	"sort"
+	"strconv"
+	"strings"
+	"sync"
+	"time"
 
+	"google.golang.org/protobuf/types/known/timestamppb"
+	"reduction.dev/reduction-protocol/handlerpb"
+	"reduction.dev/reduction/batching"
+	"reduction.dev/reduction/clocks"
+	"reduction.dev/reduction/config"
 	"reduction.dev/reduction/dkv"
-	"reduction.dev/reduction/dkv/recovery"
-	"reduction.dev/reduction/dkv/storage"
+	"reduction.dev/reduction/jobs"
+	"reduction.dev/reduction/partitioning"
+	"reduction.dev/reduction/proto"
+	"reduction.dev/reduction/proto/jobpb"
+	"reduction.dev/reduction/proto/snapshotpb"
+	"reduction.dev/reduction/proto/workerpb"
+	"reduction.dev/reduction/util/verifhook"
+	"reduction.dev/reduction/workers/operator"
+	"verif/harness/mbt"
+	"verif/harness/opkit"
 )
 
-func scan(db *dkv.DB, p []byte) string {
-	var err error
-	s := ""
-	for e := range db.ScanPrefix(p, &err) {
-		s += fmt.Sprintf("%x=%s ", e.Key(), e.Value())
-	}
-	if err != nil {
-		s += "ERR " + err.Error()
-	}
-	return s
+const stepWait = 20 * time.Second
+
+// ------------------------------------------------------------------ hooks ----
+
+type hookState struct {
+	mu         sync.Mutex
+	cond       *sync.Cond
+	flushStart int
+	compDone   int
+	lastDB     *dkv.DB
+	memSize    int64
+	regime     string
 }
 
-func main() {
-	dir, _ := os.MkdirTemp("/dev/shm", "probe")
-	defer os.RemoveAll(dir)
-	mk := func(name string, mem uint64, hs []recovery.CheckpointHandle) *dkv.DB {
-		return dkv.Open(dkv.DBOptions{FileSystem: storage.NewLocalFilesystem(filepath.Join(dir, name)), MemTableSize: mem}, hs)
-	}
-	hi := byte(0)
-	if len(os.Args) > 1 && os.Args[1] == "hi" {
-		hi = 0x80
-	}
-	a := mk("a", 40, nil)
-	b := mk("b", 40, nil)
-	for i := 0; i < 6; i++ {
-		a.Put([]byte{0, hi + 1, byte('a' + i)}, []byte("va"))
-		b.Put([]byte{0, hi + 2, byte('a' + i)}, []byte("vb"))
-		a.WaitOnTasks()
-		b.WaitOnTasks()
-	}
-	fmt.Println("a:", a.Diagnostics())
-	ha, err := a.Checkpoint(1)()
-	fmt.Println(ha, err)
-	hb, err := b.Checkpoint(1)()
-	fmt.Println(hb, err)
-	for _, order := range [][]recovery.CheckpointHandle{{ha, hb}, {hb, ha}} {
-		c := mk(fmt.Sprintf("c%v", order[0] == ha), 1<<20, order)
-		fmt.Println("order a-first:", order[0] == ha)
-		fmt.Println(" scan a-keys:", scan(c, []byte{0, hi + 1}))
-		fmt.Println(" scan b-keys:", scan(c, []byte{0, hi + 2}))
-		fmt.Println(c.Diagnostics())
-		func() {
-			defer func() { fmt.Println(" checkpoint recover:", recover()) }()
-			h, err := c.Checkpoint(2)()
-			fmt.Println(" checkpoint 2:", h, err)
-		}()
+var hooks = func() *hookState { h := &hookState{}; h.cond = sync.NewCond(&h.mu); return h }()
+
+func (h *hookState) at(point string, args ...any) {
+	switch point {
+	case "dkv.flush.start":
+		h.mu.Lock()
+		h.flushStart++
+		if len(args) > 0 {
+			if db, ok := args[0].(*dkv.DB); ok {
+				h.lastDB = db
+			}
+		}
+		h.cond.Broadcast()
+		h.mu.Unlock()
+	case "dkv.compact.done":
+		h.mu.Lock()
+		h.compDone++
+		h.cond.Broadcast()
+		h.mu.Unlock()
 	}
 }
+
+func (h *hookState) tune(name string, def int64) int64 {
+	h.mu.Lock()
+	defer h.mu.Unlock()
+	switch name {
+	case "dkv.memTableSize":
+		return h.memSize
+	case "dkv.maxSizeAmpPct":
+		if h.regime == "major" {
+			return -1 // every compaction is a major one taking everything into the base level
+		}
+		return math.MaxInt64 // never a major compaction: L0+L1 -> L1
+	}
+	return def
+}
+
+// awaitQuiet waits until at least `want` rotations have been flushed and compacted and none is in flight.
+func (h *hookState) awaitQuiet(want int) (*dkv.DB, error) {
+	deadline := time.Now().Add(stepWait)
+	timer := time.AfterFunc(stepWait, func() { h.mu.Lock(); h.cond.Broadcast(); h.mu.Unlock() })
+	defer timer.Stop()
+	h.mu.Lock()
+	defer h.mu.Unlock()
+	for !(h.compDone >= want && h.compDone == h.flushStart) {
+		if time.Now().After(deadline) {
+			return nil, fmt.Errorf("flush/compaction did not finish (flush tasks started %d, compaction loops done %d, wanted %d)", h.flushStart, h.compDone, want)
+		}
+		h.cond.Wait()
+	}
+	return h.lastDB, nil
+}
+
+// ---------------------------------------------------------------- handler ----
+
+type cmd struct {
+	Op  string `json:"op"` // put | del | timer | read
+	V   string `json:"v,omitempty"`
+	T   int64  `json:"t,omitempty"`
+	Pad int    `json:"pad,omitempty"`
+}
+
+type call struct {
+	key    string
+	states map[string][]string // subject key -> "ns/entry=value"
+	timers [][2]string         // (subject key, seconds) expired in this call
+}
+
+type refHandler struct {
+	mu    sync.Mutex
+	calls []*call
+}
+
+func (h *refHandler) KeyEventBatch(ctx context.Context, events [][]byte) ([][]*handlerpb.KeyedEvent, error) {
+	panic("unused by operators")
+}
+
+func (h *refHandler) ProcessEventBatch(ctx context.Context, req *handlerpb.ProcessEventBatchRequest) (*handlerpb.ProcessEventBatchResponse, error) {
+	c := &call{states: map[string][]string{}}
+	for _, ks := range req.KeyStates {
+		ents := []string{}
+		for _, ns := range ks.StateEntryNamespaces {
+			for _, e := range ns.Entries {
+				v := string(e.Value)
+				if i := strings.IndexByte(v, '|'); i >= 0 {
+					v = v[:i]
+				}
+				ents = append(ents, ns.Namespace+"/"+string(e.Key)+"="+v)
+			}
+		}
+		sort.Strings(ents)
+		c.states[string(ks.Key)] = ents
+	}
+	resp := &handlerpb.ProcessEventBatchResponse{}
+	for _, ev := range req.Events {
+		switch e := ev.Event.(type) {
+		case *handlerpb.Event_KeyedEvent:
+			c.key = string(e.KeyedEvent.Key)
+			var m cmd
+			if err := json.Unmarshal(e.KeyedEvent.Value, &m); err != nil {
+				return nil, err
+			}
+			kr := &handlerpb.KeyResult{Key: e.KeyedEvent.Key}
+			switch m.Op {
+			case "put":
+				val := m.V
+				if m.Pad > 0 {
+					val += "|" + strings.Repeat("p", m.Pad)
+				}
+				kr.StateMutationNamespaces = []*handlerpb.StateMutationNamespace{{Namespace: "s", Mutations: []*handlerpb.StateMutation{{
+					Mutation: &handlerpb.StateMutation_Put{Put: &handlerpb.PutMutation{Key: []byte("x"), Value: []byte(val)}}}}}}
+			case "del":
+				kr.StateMutationNamespaces = []*handlerpb.StateMutationNamespace{{Namespace: "s", Mutations: []*handlerpb.StateMutation{{
+					Mutation: &handlerpb.StateMutation_Delete{Delete: &handlerpb.DeleteMutation{Key: []byte("x")}}}}}}
+			case "timer":
+				kr.NewTimers = []*timestamppb.Timestamp{{Seconds: m.T}}
+			}
+			if m.Op != "read" {
+				resp.KeyResults = append(resp.KeyResults, kr)
+			}
+		case *handlerpb.Event_TimerExpired:
+			c.timers = append(c.timers, [2]string{string(e.TimerExpired.Key), strconv.FormatInt(e.TimerExpired.Timestamp.GetSeconds(), 10)})
+		}
+	}
+	h.mu.Lock()
+	h.calls = append(h.calls, c)
+	h.mu.Unlock()
+	return resp, nil
+}
+
+func (h *refHandler) take() []*call {
+	h.mu.Lock()
+	defer h.mu.Unlock()
+	c := h.calls
+	h.calls = nil
+	return c
+}
+
+var _ proto.Handler = (*refHandler)(nil)
+
+// ------------------------------------------------------------ adapters ----
+
+// opNode: a real operator + what jobs.Assembly (proto.Operator) and its neighbours hold for it
+type opNode struct {
+	proto.UnimplementedOperator
+	id      string
+	op      *operator.Operator
+	h       *refHandler
+	cancel  context.CancelFunc
+	done    chan error
+	deploy  *workerpb.DeployOperatorRequest
+	cluster *generation
+}
+
+func (n *opNode) ID() string   { return n.id }
+func (n *opNode) Host() string { return n.id + "-host" }
+func (n *opNode) Deploy(ctx context.Context, req *workerpb.DeployOperatorRequest) error {
+	// Assembly.Deploy calls the operators concurrently; dkv.Open is serialised here only so that the hook
+	// counters of one operator's WAL replay do not interleave with another's (no effect on the operators)
+	n.cluster.deployMu.Lock()
+	defer n.cluster.deployMu.Unlock()
+	n.deploy = req
+	return n.op.HandleDeploy(ctx, req, nil)
+}
+func (n *opNode) NeedsTable(ctx context.Context, uri string) (bool, error) {
+	return n.op.HandleNeedsTable(uri), nil
+}
+func (n *opNode) UpdateRetainedCheckpoints(ctx context.Context, ids []uint64) error { return nil }
+
+type srNode struct{ proto.UnimplementedSourceRunner }
+
+func (*srNode) ID() string   { return "sr" }
+func (*srNode) Host() string { return "sr-host" }
+func (*srNode) Deploy(context.Context, *workerpb.DeploySourceRunnerRequest) error { return nil }
+
+type generation struct {
+	n        int
+	nodes    []*opNode
+	job      *opkit.JobRec
+	ks       *partitioning.KeySpace
+	deployMu sync.Mutex
+}
+
+// ------------------------------------------------------------- replayer ----
+
+type run struct {
+	bi     int
+	in     *mbt.Input
+	res    *mbt.Result
+	dir    string
+	count  int
+	keys   [][]byte // subject key of k (1-based: keys[k-1])
+	keyNo  map[string]int
+	gens   []*generation // all generations stay referenced until the behaviour ends
+	cur    *generation
+	ckptID uint64
+	acks   []*snapshotpb.OperatorCheckpoint
+	rot    int // rotations the harness has caused so far (process-wide hook counters)
+	failed bool
+	serial int
+}
+
+func (r *run) violate(step int, what string, exp, obs any) {
+	r.failed = true
+	r.res.Violations = append(r.res.Violations, mbt.Violation{Property: r.in.Property, Behaviour: r.bi, Step: step, What: what, Expected: exp, Observed: obs})
+}
+
+func (r *run) machinery(format string, a ...any) {
+	r.failed = true
+	r.res.Errors = append(r.res.Errors, fmt.Sprintf("behaviour %d: ", r.bi)+fmt.Sprintf(format, a...))
+}
+
+// findKey: a subject key "k<no>-<nonce>" (fixed width, byte order = order of no) that the real KeySpace puts in group g
+func findKey(ks *partitioning.KeySpace, no, g int) []byte {
+	for nonce := 0; ; nonce++ {
+		k := []byte(fmt.Sprintf("k%02d-%07d", no, nonce))
+		if int(ks.KeyGroup(k)) == g {
+			return k
+		}
+	}
+}
+
+func withTimeout(what string, f func() error) error {
+	errc := make(chan error, 1)
+	go func() { errc <- f() }()
+	select {
+	case err := <-errc:
+		return err
+	case <-time.After(stepWait):
+		return fmt.Errorf("%s: no answer within %s", what, stepWait)
+	}
+}
+
+func (r *run) send(n *opNode, ev *workerpb.Event) error {
+	return withTimeout("event to "+n.id, func() error { return n.op.HandleEvent(context.Background(), "sr", ev) })
+}
+
+func keyed(key []byte, c cmd) *workerpb.Event {
+	b, _ := json.Marshal(c)
+	return &workerpb.Event{Event: &workerpb.Event_KeyedEvent{KeyedEvent: &handlerpb.KeyedEvent{Key: key, Value: b, Timestamp: timestamppb.New(time.Unix(1, 0))}}}
+}
+
+// deploy a new generation of n operators from the recorded acks through the real jobs.Assembly.Deploy
+func (r *run) deploy(step int, n int, regime string, st mbt.Step) bool {
+	hooks.mu.Lock()
+	hooks.regime = regime
+	hooks.mu.Unlock()
+	if r.cur != nil {
+		for _, nd := range r.cur.nodes {
+			nd.op.Halt()
+			nd.cancel()
+		}
+		for _, nd := range r.cur.nodes {
+			select {
+			case <-nd.done:
+			case <-time.After(2 * time.Second):
+			}
+		}
+	}
+	g := &generation{n: n, job: &opkit.JobRec{}, ks: partitioning.NewKeySpace(r.count, n)}
+	byID := map[string]*opNode{}
+	ops := make([]proto.Operator, n)
+	for j := 0; j < n; j++ {
+		r.serial++
+		id := fmt.Sprintf("g%do%d-%03d", len(r.gens)+1, j, r.serial)
+		nd := &opNode{id: id, h: &refHandler{}, done: make(chan error, 1), cluster: g}
+		nd.op = operator.NewOperator(operator.NewOperatorParams{ID: id, Host: id + "-host", Job: g.job, UserHandler: nd.h,
+			Clock:         clocks.NewFrozenClock(),
+			EventBatching: batching.EventBatcherParams{MaxSize: 1, Timer: &opkit.Timer{}},
+			NeighborOperatorFactory: func(senderID string, node *jobpb.NodeIdentity) proto.Operator {
+				return byID[node.Id]
+			}})
+		byID[id] = nd
+		g.nodes = append(g.nodes, nd)
+		ops[j] = nd
+		ctx, cancel := context.WithCancel(context.Background())
+		nd.cancel = cancel
+		go func() { nd.done <- nd.op.Start(ctx) }()
+	}
+	asm := jobs.NewAssembly(ops, []proto.SourceRunner{&srNode{}})
+	var ckpt *snapshotpb.JobCheckpoint
+	if r.acks != nil {
+		ckpt = &snapshotpb.JobCheckpoint{Id: r.ckptID, OperatorCheckpoints: r.acks}
+	}
+	cfg := &config.Config{WorkerCount: n, KeyGroupCount: r.count, WorkingStorageLocation: r.dir}
+	if err := withTimeout("Assembly.Deploy", func() error { return asm.Deploy(cfg, ckpt) }); err != nil {
+		r.violate(step, fmt.Sprintf("jobs.Assembly.Deploy of %d operators from checkpoint %d failed: %v", n, r.ckptID, err), nil, err.Error())
+		return false
+	}
+	r.gens = append(r.gens, g)
+	r.cur = g
+	// observable "AssignRanges result": which recorded checkpoints each new operator was handed
+	if st != nil && r.acks != nil {
+		idx := map[string]int{}
+		for i, a := range r.acks {
+			idx[a.OperatorId] = i
+		}
+		for j, nd := range g.nodes {
+			got := []int{}
+			for _, c := range nd.deploy.Checkpoints {
+				got = append(got, idx[c.OperatorId])
+			}
+			must, may := ints(st.List("must")[j]), ints(st.List("may")[j])
+			if !subset(must, got) || !subset(got, may) {
+				r.violate(step, fmt.Sprintf("new operator %d of %d was handed the recorded checkpoints %v (ack positions); it shares key groups with %v", j, n, got, must), must, got)
+				return false
+			}
+		}
+	}
+	return true
+}
+
+func ints(v any) []int {
+	arr, _ := v.([]any)
+	out := []int{}
+	for _, x := range arr {
+		f, _ := x.(float64)
+		out = append(out, int(f))
+	}
+	return out
+}
+
+func subset(a, b []int) bool {
+	m := map[int]bool{}
+	for _, x := range b {
+		m[x] = true
+	}
+	for _, x := range a {
+		if !m[x] {
+			return false
+		}
+	}
+	return true
+}
+
+// readBack: every subject key through the handler of the operator the real key space routes it to
+func (r *run) readBack(step int, exp map[string]any, where string) bool {
+	st := ints(exp["st"])
+	for k := 1; k <= len(r.keys); k++ {
+		key := r.keys[k-1]
+		nd := r.cur.nodes[r.cur.ks.RangeIndex(key)]
+		nd.h.take()
+		if err := r.send(nd, keyed(key, cmd{Op: "read"})); err != nil {
+			r.machinery("step %d: read of key %d: %v", step, k, err)
+			return false
+		}
+		calls := nd.h.take()
+		if len(calls) != 1 {
+			r.machinery("step %d: read of key %d produced %d handler calls", step, k, len(calls))
+			return false
+		}
+		got := calls[0].states[string(key)]
+		want := []string{}
+		if st[k-1] != 0 {
+			want = []string{"s/x=" + strconv.Itoa(st[k-1])}
+		}
+		if fmt.Sprint(got) != fmt.Sprint(want) {
+			r.violate(step, fmt.Sprintf("%s: operator %s (%d of %d, key groups %v) gave its handler the state %v for subject key %d (key group %d of %d); the job's state of that key is %v",
+				where, nd.id, r.cur.ks.RangeIndex(key), r.cur.n, r.cur.ks.KeyGroupRanges()[r.cur.ks.RangeIndex(key)], got, k, r.cur.ks.KeyGroup(key), r.count, want), want, got)
+			return false
+		}
+	}
+	return true
+}
+
+// fire: watermark t to one operator; the timers its handler is given
+func (r *run) fire(step int, o int, t int64) ([][2]int, bool) {
+	nd := r.cur.nodes[o]
+	nd.h.take()
+	if err := r.send(nd, &workerpb.Event{Event: &workerpb.Event_Watermark{Watermark: &workerpb.Watermark{Timestamp: &timestamppb.Timestamp{Seconds: t}}}}); err != nil {
+		r.machinery("step %d: watermark to operator %d: %v", step, o, err)
+		return nil, false
+	}
+	out := [][2]int{}
+	for _, c := range nd.h.take() {
+		for _, tm := range c.timers {
+			no, ok := r.keyNo[tm[0]]
+			if !ok {
+				no = -1
+			}
+			sec, _ := strconv.Atoi(tm[1])
+			out = append(out, [2]int{no, sec})
+		}
+	}
+	sort.Slice(out, func(i, j int) bool { return out[i][0] < out[j][0] || (out[i][0] == out[j][0] && out[i][1] < out[j][1]) })
+	return out, true
+}
+
+func pairs(v any) [][2]int {
+	arr, _ := v.([]any)
+	out := [][2]int{}
+	for _, x := range arr {
+		p := ints(x)
+		if len(p) == 2 {
+			out = append(out, [2]int{p[0], p[1]})
+		}
+	}
+	sort.Slice(out, func(i, j int) bool { return out[i][0] < out[j][0] || (out[i][0] == out[j][0] && out[i][1] < out[j][1]) })
+	return out
+}
+
+// checkpoint: barrier to the operators in the given order (0-based); the acks in arrival order
+func (r *run) checkpoint(step int, order []int) bool {
+	r.ckptID++
+	g := r.cur
+	before := len(g.job.Acks())
+	for _, o := range order {
+		nd := g.nodes[o]
+		if err := r.send(nd, &workerpb.Event{Event: &workerpb.Event_CheckpointBarrier{CheckpointBarrier: &workerpb.CheckpointBarrier{CheckpointId: r.ckptID}}}); err != nil {
+			r.violate(step, fmt.Sprintf("operator %s (%d of %d) could not take checkpoint %d: %v", nd.id, o, g.n, r.ckptID, err), nil, err.Error())
+			return false
+		}
+	}
+	acks := g.job.Acks()[before:]
+	if len(acks) != len(order) {
+		r.machinery("step %d: %d acks for %d barriers", step, len(acks), len(order))
+		return false
+	}
+	for i, a := range acks {
+		if a.OperatorId != g.nodes[order[i]].id || a.CheckpointId != r.ckptID {
+			r.machinery("step %d: ack %d is from %s for checkpoint %d", step, i, a.OperatorId, a.CheckpointId)
+			return false
+		}
+	}
+	r.acks = acks
+	return true
+}
+
+var levelRe = regexp.MustCompile(`level (\d+), tables (\d+)`)
+
+func layout(db *dkv.DB) []int {
+	out := make([]int, 6)
+	for _, m := range levelRe.FindAllStringSubmatch(db.Diagnostics(), -1) {
+		l, _ := strconv.Atoi(m[1])
+		n, _ := strconv.Atoi(m[2])
+		if l < 6 {
+			out[l] = n
+		}
+	}
+	return out
+}
+
+func replay(bi int, beh []mbt.Step, in *mbt.Input, res *mbt.Result) {
+	slog.SetDefault(slog.New(slog.NewTextHandler(io.Discard, nil)))
+	dir, err := opkit.TempDir("verif-rescale-")
+	if err != nil {
+		res.Errors = append(res.Errors, err.Error())
+		return
+	}
+	defer os.RemoveAll(dir)
+	r := &run{bi: bi, in: in, res: res, dir: dir, keyNo: map[string]int{}}
+	hooks.mu.Lock()
+	hooks.memSize = int64(in.CfgInt("MemSize", 4096))
+	r.rot = hooks.compDone
+	hooks.mu.Unlock()
+	verifhook.Install(hooks.at, hooks.tune)
+	defer func() {
+		for _, g := range r.gens {
+			for _, nd := range g.nodes {
+				nd.op.Halt()
+				nd.cancel()
+			}
+		}
+	}()
+	layoutDrift := false
+	var lastExp map[string]any
+	for si, st := range beh {
+		if r.failed {
+			break
+		}
+		exp := st.Map("exp")
+		switch st.Str("a") {
+		case "Init":
+			r.count = st.Int("count")
+			ks1 := partitioning.NewKeySpace(r.count, 1)
+			for i, g := range st.Ints("grp") {
+				k := findKey(ks1, i+1, g)
+				r.keys = append(r.keys, k)
+				r.keyNo[string(k)] = i + 1
+			}
+			if !r.deploy(si, st.Int("n"), st.Str("reg"), nil) {
+				break
+			}
+			exp = map[string]any{"st": make([]any, len(r.keys)), "tm": []any{}}
+			for i := range r.keys {
+				exp["st"].([]any)[i] = float64(0)
+			}
+			r.readBack(si, exp, "fresh job")
+		case "W":
+			o, k := st.Int("o")-1, st.Int("k")
+			key := r.keys[k-1]
+			if own := r.cur.ks.RangeIndex(key); own != o {
+				r.machinery("step %d: the model sends key %d to operator %d, the real key space routes it to %d", si, k, o, own)
+				break
+			}
+			c := cmd{Op: "put", V: strconv.Itoa(st.Int("v"))}
+			if t := st.Int("t"); t > 0 {
+				c = cmd{Op: "timer", T: int64(t)}
+			} else if st.Int("v") == 0 {
+				c = cmd{Op: "del"}
+			}
+			flushNext := si+1 < len(beh) && beh[si+1].Str("a") == "Flush" && beh[si+1].Int("o") == o+1
+			if flushNext {
+				c.Pad = in.CfgInt("MemSize", 4096)
+			}
+			nd := r.cur.nodes[o]
+			nd.h.take()
+			if err := r.send(nd, keyed(key, c)); err != nil {
+				r.machinery("step %d: %v", si, err)
+				break
+			}
+			// the state the handler was given BEFORE this write is the job's state before it
+			if calls := nd.h.take(); len(calls) == 1 && lastExp != nil {
+				want := []string{}
+				if v := ints(lastExp["st"])[k-1]; v != 0 {
+					want = []string{"s/x=" + strconv.Itoa(v)}
+				}
+				if got := calls[0].states[string(key)]; fmt.Sprint(got) != fmt.Sprint(want) {
+					r.violate(si, fmt.Sprintf("operator %s gave its handler the state %v for subject key %d with the event that writes it; the job's state of that key was %v", nd.id, got, k, want), want, got)
+					break
+				}
+			}
+			if flushNext {
+				r.rot++
+			} else {
+				r.readBack(si, exp, "after a write")
+			}
+		case "Flush":
+			db, err := hooks.awaitQuiet(r.rot)
+			if err != nil {
+				r.machinery("step %d: %v", si, err)
+				break
+			}
+			hooks.mu.Lock()
+			extra := hooks.compDone != r.rot
+			hooks.mu.Unlock()
+			if extra {
+				r.machinery("step %d: a memtable rotation the harness did not cause", si)
+				break
+			}
+			if db != nil && !layoutDrift {
+				if got, want := layout(db), st.Ints("lay"); fmt.Sprint(got) != fmt.Sprint(want) {
+					layoutDrift = true // internal detail: the property does not demand a layout
+					res.Count("layout_differs", 1)
+					if len(res.DriftNotes) < 5 {
+						res.DriftNotes = append(res.DriftNotes, fmt.Sprintf("behaviour %d step %d: tables per level %v, model %v", bi, si, got, want))
+					}
+				}
+			}
+			r.readBack(si, exp, "after a flush and compaction")
+		case "Wm":
+			o := st.Int("o") - 1
+			got, ok := r.fire(si, o, int64(st.Int("t")))
+			if !ok {
+				break
+			}
+			if want := pairs(st["fire"]); fmt.Sprint(got) != fmt.Sprint(want) {
+				nd := r.cur.nodes[o]
+				r.violate(si, fmt.Sprintf("watermark %d at operator %s (%d of %d, key groups %v): the timers (subject key, time) %v fired; the job's pending timers of the keys it owns up to that time are %v",
+					st.Int("t"), nd.id, o, r.cur.n, r.cur.ks.KeyGroupRanges()[o], got, want), want, got)
+				break
+			}
+			r.readBack(si, exp, "after timers fired")
+		case "Ckpt":
+			order := []int{}
+			for _, p := range st.Ints("perm") {
+				order = append(order, p-1)
+			}
+			r.checkpoint(si, order)
+		case "Deploy":
+			if !r.deploy(si, st.Int("n"), st.Str("reg"), st) {
+				break
+			}
+			r.readBack(si, exp, fmt.Sprintf("after restoring checkpoint %d of %d operators into %d operators (acks recorded in the order %v)", r.ckptID, len(r.acks), st.Int("n"), ackOrder(r.acks)))
+		case "Finish":
+			r.finish(si, exp)
+		default:
+			r.machinery("unknown step %q", st.Str("a"))
+		}
+		if exp != nil {
+			lastExp = exp
+		}
+		res.Steps++
+	}
+	if r.failed {
+		return
+	}
+	if last := beh[len(beh)-1]; last.Str("a") != "Finish" && lastExp != nil && r.cur != nil {
+		// a behaviour cut by the length bound: still drain the timers and checkpoint/restore once more
+		r.finish(len(beh)-1, lastExp)
+		if r.failed {
+			return
+		}
+	}
+	res.Executed++
+	if bi < 2 {
+		res.Samples = append(res.Samples, map[string]any{"kind": "Rescale behaviour replayed on real operators", "steps": slim(beh)})
+	}
+}
+
+func ackOrder(acks []*snapshotpb.OperatorCheckpoint) []string {
+	out := []string{}
+	for _, a := range acks {
+		out = append(out, fmt.Sprintf("%s[%d,%d)", a.OperatorId, a.KeyGroupRange.GetStart(), a.KeyGroupRange.GetEnd()))
+	}
+	return out
+}
+
+func slim(beh []mbt.Step) []any {
+	out := []any{}
+	for _, s := range beh {
+		m := map[string]any{}
+		for k, v := range s {
+			if k != "lay" && k != "pred" {
+				m[k] = v
+			}
+		}
+		out = append(out, m)
+	}
+	return out
+}
+
+// finish: fire every remaining timer at every operator, checkpoint once more (ascending order), restore that
+// checkpoint into the same number of fresh operators and read everything back once more
+func (r *run) finish(step int, exp map[string]any) {
+	want := map[int][][2]int{}
+	for _, p := range pairs(exp["tm"]) {
+		o := r.cur.ks.RangeIndex(r.keys[p[0]-1])
+		want[o] = append(want[o], p)
+	}
+	for o := range r.cur.nodes {
+		got, ok := r.fire(step, o, 1<<40)
+		if !ok {
+			return
+		}
+		w := want[o]
+		if w == nil {
+			w = [][2]int{}
+		}
+		if fmt.Sprint(got) != fmt.Sprint(w) {
+			nd := r.cur.nodes[o]
+			r.violate(step, fmt.Sprintf("final watermark at operator %s (%d of %d, key groups %v): the timers (subject key, time) %v fired; the job's pending timers of the keys it owns are %v",
+				nd.id, o, r.cur.n, r.cur.ks.KeyGroupRanges()[o], got, w), w, got)
+			return
+		}
+	}
+	noTimers := map[string]any{"st": exp["st"], "tm": []any{}}
+	if !r.readBack(step, noTimers, "after the last timers fired") {
+		return
+	}
+	order := []int{}
+	for o := range r.cur.nodes {
+		order = append(order, o)
+	}
+	if !r.checkpoint(step, order) {
+		return
+	}
+	hooks.mu.Lock()
+	reg := hooks.regime
+	hooks.mu.Unlock()
+	if !r.deploy(step, r.cur.n, reg, nil) {
+		return
+	}
+	if !r.readBack(step, noTimers, fmt.Sprintf("after restoring the final checkpoint %d into %d fresh operators", r.ckptID, r.cur.n)) {
+		return
+	}
+	for o := range r.cur.nodes {
+		got, ok := r.fire(step, o, 1<<40)
+		if !ok {
+			return
+		}
+		if len(got) != 0 {
+			r.violate(step, fmt.Sprintf("timers %v fired again after restoring the final checkpoint (they had fired before it)", got), [][2]int{}, got)
+			return
+		}
+	}
+}
+
+func main() { mbt.Main(replay) }
